@@ -277,4 +277,6 @@ MANIFEST_TEXT.update({
     'C15': dict(level='TLC checks on every session of the bounded model (three loaded intervals, two intersect/difference calls over any registers) that every register denotes its ideal set (plain set algebra on the probe universe), from which all identities of C15 follow, and derives the identities each session must honour; the programs are executed against the real crate with results fed back as operands and each derived identity, each explicit identity shape on parsed ranges, and the reusability (print / re-parse) of every intermediate result are judged by TLC on the recorded trace.',
                 note=_NOTE, design_ref='DESIGN.md section 4 (C15), 2.2', technique='TLA+ session state machine with an ideal-set ghost, model-checked with TLC; generated sessions executed against the crate and validated by TLC (trace validation)'),
 })
+# C06 is exploration driven by model-generated inputs: the specification contributes totality and the input spaces
+PROPS['C06']['level'] = 'exploration'
 NOT_APPLICABLE = []
